@@ -140,7 +140,7 @@ theorem indexRune_eof (valid : List Int) : indexRune valid eof = false := by
 def allSpaceLoop (a : Array UInt8) (i : Nat) (seenNewline : Bool) : Bool :=
   if h : i < a.size then
     let d := decodeRune a i
-    if !isSpaceU d.1 then false
+    if !isSpaceEOL d.1 then false   -- space, tab, CR, LF: what line joining treats as whitespace (/repo dbf6196)
     else allSpaceLoop a (i + d.2) (seenNewline || isEndOfLine d.1)
   else seenNewline
 termination_by a.size - i
@@ -749,7 +749,21 @@ def lexTextLoop (l : Lexer) (lastChar : Int) : Res :=
           | some l3 =>
             match l3.next with
             | none => none
-            | some (r3, l4) => if r3 = 42 then lexSoyDoc l4 else lexBlockComment l4.backup false
+            | some (r3, l4) =>
+              if r3 = 42 then
+                -- "/**/" is an empty block comment, not the start of a soydoc (/repo 73e5662)
+                match l4.peek with
+                | none => none
+                | some (p4, l5) =>
+                  if p4 = 47 then
+                    match l5.next with
+                    | none => none
+                    | some (_, l6) =>
+                      match l6.emit .tComment with
+                      | none => none
+                      | some l7 => some (some .text, l7)
+                  else lexSoyDoc l5
+              else lexBlockComment l4.backup false
         else lexTextLoop l2.backup r
     -- eof or entering a tag?
     else if r = 123 then
